@@ -82,6 +82,19 @@ Fixpoint changes_non_volatile (s : scope) (nc : list (ident * Q)) : bool :=
   | SJoint l => existsb (fun p => changes_non_volatile (snd p) nc) l
   end.
 
+(* Scope.overwrite(to_overwrite): the named parameters get the given values (constants: they depend on nothing),
+   every other parameter is as before *)
+Definition overwritten (s : scope) (kv : list (ident * Q)) : scope :=
+  SMapped s (map (fun p => (fst p, EConst (snd p))) kv).
+
+(* the scope an operation continues on *)
+Definition next_scope (s : scope) (o : op) : scope :=
+  match o with
+  | OChange nc => rebuild s nc
+  | OOverwrite kv => overwritten s kv
+  | _ => s
+  end.
+
 (* well-formedness used by the theorems: names of a dictionary are distinct at every layer *)
 Fixpoint nodup_keys {A} (l : list (ident * A)) : bool :=
   match l with
